@@ -94,6 +94,13 @@ fn value_refs() {
                     for x in v.iter_mut() {
                         *x = i;
                     }
+                    // the reference stays valid (and the shard locked) across write() as well
+                    r.write([i + 20; 4]);
+                    let seen = *r.value();
+                    if seen != [i + 20; 4] {
+                        fail("C02", "M-value-changed-under-a-held-mutable-reference", format!("wrote {:?}, read {:?}", [i + 20; 4], seen));
+                    }
+                    r.write([i; 4]);
                 }
             }
         })
